@@ -74,6 +74,7 @@ def run(chk, repo):
     # remove_spares' own predicate must agree with the names used for padding in the structs it is applied to
     p1_predicate(chk, repo, L)
     padding_borders(chk, L)
+    chk.attempt(padding_codecs, chk, L)
     # ---------------------------------------------------------------- P2 (b) conversions on nullable fields
     nullable = {}
     for key, prefix in (("leader", ""), ("volume", ""), ("image_descriptor", ""), ("signal", ""), ("processed", "")):
@@ -231,6 +232,50 @@ def padding_borders(chk, L):
                 chk.fail("C20-P1", f"{key}: {path}", f"field {path} changed its width {w0} -> {w1} while the padding {comp[0][0]} of the same record changed {comp[0][1]} -> {comp[0][2]}: "
                                                         f"the field now covers bytes the format leaves blank (or loses bytes to the padding); non-blank padding content changes or breaks the value", key=f"{key}:{path}:padding-border")
     chk.ok("C20-P1", "layouts", f"{n} reference fields: no field changed its width at the expense of a padding area of its record")
+
+
+def _strictness(codec):
+    """how much a codec demands of the bytes it reads: 0 nothing (raw bytes, integers), 1 decodable text, 2 numeric text"""
+    txt = " ".join(codec)
+    if "AsciiInteger" in txt or "AsciiFloat" in txt or "AsciiComplex" in txt:
+        return 2
+    if "PaddedString" in txt or "CString" in txt or "String" in txt:
+        return 1
+    return 0
+
+
+def padding_codecs(chk, L):
+    """a padding area keeps a codec that cannot fail on the content its class allows: bytes that the reference layout reads as raw
+    bytes / an integer must not be read as text (ASCII decoding fails on bytes >= 0x80), a text spare must not be read as a
+    number - otherwise padding content makes the whole file unreadable"""
+    from ..reference import leaf_record, load
+    ref = load()["records"]
+    names = {0: "raw bytes / an integer (any content)", 1: "ASCII text (fails on bytes >= 0x80)", 2: "a number in ASCII text (fails on anything else)"}
+    n = 0
+    for key in ("leader", "volume", "signal", "processed", "image_descriptor", "trailer"):
+        cur = L.by_name(key)
+        by_span = {}
+        for lf in cur.values():
+            if lf.kind == "field" and lf.offset.is_const() and lf.width is not None and lf.width.is_const():
+                by_span[(lf.offset.value(), lf.width.value())] = lf
+        for r in ref[key]["leaves"]:
+            if not r["padding"] or r["kind"] != "field":
+                continue
+            lf = cur.get(r["path"])
+            if lf is None:
+                try:
+                    lf = by_span.get((int(r["offset"]), int(r["width"])))
+                except (TypeError, ValueError):
+                    lf = None
+            if lf is None:
+                continue  # re-sliced padding: the bytes are covered by other leaves, judged by the layout comparison
+            n += 1
+            was, now = _strictness(r["codec"]), _strictness(leaf_record(lf)["codec"])
+            chk.require(now <= was, "C20-P1", f"{key}: {r['path']}", f"padding {r['path']} is read as {names[now].split(' (')[0]}",
+                        f"padding {r['path']} (bytes {r['offset']}..+{r['width']}) was read as {names[was]} and is now read as {names[now]}: padding content of its declared class makes the record - and the open - fail",
+                        key=f"{key}:{r['path']}:padding-codec")
+    if n == 0:
+        raise AnalysisError("no padding area of the reference layout was found in the current layouts")
 
 
 def p1_predicate(chk, repo, L):
